@@ -126,3 +126,7 @@ Total sum of frequencies must be 256
 /*                               ------
                                   256
 */
+
+#if defined(RANDOMX_VERIF) && defined(RANDOMX_VERIF_CONFIG_H)
+#include RANDOMX_VERIF_CONFIG_H   /* verification builds only: #undef/#define of selected parameters */
+#endif
